@@ -17,6 +17,7 @@ import (
 	"strconv"
 	"strings"
 	"sync"
+	"sync/atomic"
 	"syscall"
 	"time"
 )
@@ -492,6 +493,125 @@ type Relay struct {
 	cut    bool
 	closed bool
 	Cuts   int
+	// bursty mode: data towards the target is held and handed over only at multiples of burst, everything
+	// that has accumulated in one write (0 = pass through)
+	burst  atomic.Int64 // period in nanoseconds
+	holdTo atomic.Int64 // unix nanos until which nothing is handed over towards the target
+	// NewestFirst: what has accumulated during a stall / between two bursts is handed over with the data messages
+	// (backend frames: 2-byte little-endian length, first payload byte 0 = data) in reverse order - what a datagram
+	// network does when an early packet is lost and retransmitted behind later ones.  Other messages keep their order.
+	NewestFirst atomic.Bool
+	Reordered   atomic.Int64
+	Flushes     atomic.Int64 // bursts of more than one read delivered
+}
+
+// SetBurst makes the direction dialler -> target deliver in bursts every period (0 switches it off).
+func (r *Relay) SetBurst(period time.Duration) { r.burst.Store(int64(period)) }
+
+// reorderFrames returns the complete frames of b (control messages first in their order, then the data messages newest
+// first) and the incomplete remainder.
+func (r *Relay) reorderFrames(b []byte, newestFirst bool) (out, rest []byte) {
+	var ctl, data [][]byte
+	b0 := b
+	for len(b) >= 2 {
+		n := int(b[0]) | int(b[1])<<8
+		if len(b) < n+2 {
+			break
+		}
+		fr := b[:n+2]
+		if n > 0 && fr[2] == 0 {
+			data = append(data, fr)
+		} else {
+			ctl = append(ctl, fr)
+		}
+		b = b[n+2:]
+	}
+	rest = append([]byte{}, b...)
+	if !newestFirst {
+		return b0[:len(b0)-len(rest)], rest
+	}
+	for _, f := range ctl {
+		out = append(out, f...)
+	}
+	for i := len(data) - 1; i >= 0; i-- {
+		out = append(out, data[i]...)
+	}
+	if len(data) > 1 {
+		r.Reordered.Add(1)
+	}
+
+	return out, rest
+}
+
+// HoldFor stalls the direction dialler -> target for d from now on; what arrives meanwhile is delivered at once afterwards.
+func (r *Relay) HoldFor(d time.Duration) { r.holdTo.Store(time.Now().Add(d).UnixNano()) }
+
+// forwardBursty copies src to dst; while the relay is in bursty mode nothing is written between two burst
+// instants, then everything read meanwhile goes out at once (order preserved, nothing lost).
+func (r *Relay) forwardBursty(dst, src net.Conn) {
+	var mu sync.Mutex
+	var pend []byte
+	reads := 0
+	eof := false
+	go func() {
+		buf := make([]byte, 64*1024)
+		for {
+			n, err := src.Read(buf)
+			mu.Lock()
+			if n > 0 {
+				pend = append(pend, buf[:n]...)
+				reads++
+			}
+			if err != nil {
+				eof = true
+				mu.Unlock()
+
+				return
+			}
+			mu.Unlock()
+		}
+	}()
+	for {
+		p := time.Duration(r.burst.Load())
+		if p > 0 {
+			now := time.Now().UnixNano()
+			time.Sleep(time.Duration(int64(p) - now%int64(p)))
+		} else {
+			time.Sleep(200 * time.Microsecond)
+		}
+		held := false
+		for {
+			h := r.holdTo.Load() - time.Now().UnixNano()
+			if h <= 0 {
+				break
+			}
+			held = true
+			time.Sleep(time.Duration(h))
+		}
+		mu.Lock()
+		out, k, done := pend, reads, eof
+		pend, reads = nil, 0
+		mu.Unlock()
+		if len(out) > 0 {
+			if (p > 0 || held) && k > 1 {
+				r.Flushes.Add(1)
+			}
+			// only whole backend frames are handed over (so that a later burst starts at a frame boundary)
+			var rest []byte
+			out, rest = r.reorderFrames(out, (p > 0 || held) && r.NewestFirst.Load())
+			if len(rest) > 0 && !done { // incomplete frame: goes out in front of what is read next
+				mu.Lock()
+				pend = append(rest, pend...)
+				mu.Unlock()
+			}
+			if _, err := dst.Write(out); err != nil {
+				return
+			}
+		}
+		if done {
+			return
+		}
+	}
 }
 
 // NewRelay listens on an ephemeral loopback port and forwards to target.
@@ -549,7 +669,10 @@ func (r *Relay) serve(c net.Conn) {
 		_, _ = io.Copy(dst, src)
 		done <- struct{}{}
 	}
-	go cp(t, c)
+	go func() {
+		r.forwardBursty(t, c)
+		done <- struct{}{}
+	}()
 	go cp(c, t)
 	<-done
 	c.Close()
